@@ -100,6 +100,7 @@ def tokenize_line(text):
         i = m.end()
     toks = []
     depth = 0
+    bad_order = False
     stmt_start = True
     while i < n:
         c = s[i]
@@ -149,7 +150,7 @@ def tokenize_line(text):
             elif c == ")":
                 depth -= 1
                 if depth < 0:
-                    raise BasicError("unbalanced parentheses", lineno)
+                    bad_order = True
             toks.append(("op", c))
             i += 1
             stmt_start = c == ":"
@@ -157,6 +158,10 @@ def tokenize_line(text):
         raise Undefined("syntax_character", repr(c))
     if depth != 0:
         raise BasicError("unbalanced parentheses", lineno)
+    if bad_order:
+        # as many ')' as '(' but one closes before it opens: whether that is rejected before the line is executed
+        # is not documented
+        raise Undefined("syntax_parenthesis_order")
     return lineno, toks
 
 
@@ -295,6 +300,8 @@ class Parser(object):
             return ("neg", p) if op == "-" else ("pos", p)
         if self.is_kw("NOT"):
             self.next()
+            if self.peek() in (("op", "-"), ("op", "+")) or self.is_kw("NOT"):
+                raise Undefined("precedence_not")
             p = self.primary()
             k, v = self.peek()
             if not (k is None or (k == "id" and v in ("AND", "OR", "XOR", "THEN", "ELSE", "TO", "STEP", "GOTO", "GOSUB"))
@@ -361,6 +368,8 @@ class Parser(object):
             self.err("syntax: expression ends unexpectedly")
         if v == ",":
             raise Undefined("syntax_empty_list_item")
+        if v == ")":
+            raise Undefined("syntax_empty_parentheses")
         self.err("syntax: unexpected %s" % v)
 
     def lvalue(self):
@@ -651,6 +660,7 @@ class Machine(object):
         # a loop keyword that is not the first word of a statement: the pairing of loops is then not defined
         self.misplaced_loop_word = any(t[0] == "id" and t[1] in ("FOR", "NEXT", "WHILE", "WEND") for s in self.flat
                                        if s.kind != "REM" for t in s.toks[1:])
+        self.misplaced_data_word = any(t[0] == "id" and t[1] == "DATA" for s in self.flat if s.kind != "REM" for t in s.toks[1:])
         for p, s in enumerate(self.flat):
             k = s.kind
             if k in ("NEXT", "WEND"):
@@ -1174,6 +1184,9 @@ class Machine(object):
                     if s.match is None:
                         if self.misplaced_loop_word:
                             raise Undefined("loop_keyword_inside_statement")
+                        if any(q.kind in ("FOR", "NEXT", "WHILE", "WEND") and q.match is None and q is not s for q in flat):
+                            # other loops are damaged too: which WEND ends the skipped text is not defined
+                            raise Undefined("skip_over_irregular_loop_structure")
                         raise BasicError("WHILE without WEND", ln)
                     self.regular_region(pc, s.match)
                     pc = s.match + 1
@@ -1229,6 +1242,8 @@ class Machine(object):
             elif k == "data":
                 pc += 1
             elif k == "read":
+                if self.misplaced_data_word:
+                    raise Undefined("data_keyword_inside_statement")
                 for lv in a[1]:
                     item = None
                     while data_ptr[0] < len(datas):
